@@ -13,6 +13,7 @@ CONSTANTS N = 4
  AggBatchFor = "none"
  MemoVerifier = FALSE
  DomainCache = FALSE
+ PeerVerifyLimit = 0
  ReplayPolicy = "admit"
 INVARIANTS Emit
 CHECK_DEADLOCK FALSE
